@@ -120,7 +120,7 @@ func (c *clientStream) SendMsg(m any) error {
 	select {
 	case <-c.ctx.Done():
 		return c.doneErr()
-	case c.clientSend <- m:
+	case c.clientSend <- snapshot(m):
 		return nil
 	}
 }
@@ -202,7 +202,7 @@ func (s *serverStream) SendMsg(m any) error {
 	select {
 	case <-s.ctx.Done():
 		return s.doneErr()
-	case s.serverSend <- m:
+	case s.serverSend <- snapshot(m):
 		return nil
 	}
 }
@@ -222,6 +222,16 @@ func (s *serverStream) RecvMsg(m any) error {
 func (s *serverStream) sendHeaderIfNeeded() {
 	// ignore error, SendHeader has no side effects if the headers have already been sent
 	_ = s.SendHeader(nil)
+}
+
+// snapshot returns a private copy of a message that is about to be handed to the other side.
+// The receiver copies what it is handed into its own message only after the sender's SendMsg has returned,
+// by which time the sender may already be reusing or modifying m (a real connection has serialised m by then).
+func snapshot(m any) any {
+	if pm, ok := m.(proto.Message); ok {
+		return proto.Clone(pm)
+	}
+	return m
 }
 
 // works like proto.Merge but allows messages with different descriptors by performing a marshal/unmarshal
